@@ -178,14 +178,14 @@ func iamReplay(c *core.Ctx, ctl *sched.Controller, scn string, initPresent, init
 			stops = []string{"iam.created"}
 			run = func() any { gw.SetLabel(lab); return mutOp("", "create", "a1", cache.CreateAccount(iamA1())) }
 		case "update":
-			stops = []string{"iam.updated"}
+			stops = []string{"iam.updating", "iam.updated"}
 			run = func() any {
 				gw.SetLabel(lab)
 				s2 := iamS2
 				return mutOp("", "upd", "a2", cache.UpdateUserAccount(iamAccess, auth.MutableProps{Secret: &s2}))
 			}
 		case "delete":
-			stops = []string{"iam.deleted"}
+			stops = []string{"iam.deleting", "iam.deleted"}
 			run = func() any { gw.SetLabel(lab); return mutOp("", "del", "none", cache.DeleteUserAccount(iamAccess)) }
 		}
 		procs = append(procs, &sched.Proc{Label: lab, Stops: stops, Run: run})
